@@ -51,6 +51,8 @@ Fixpoint rename_expr (x : expr) : expr :=
   | EWhile c b => EWhile (rename_expr c) (rename_expr b)
   | EDoWhile b c => EDoWhile (rename_expr b) (rename_expr c)
   | EFor i c n b => EFor (rename_expr i) (rename_expr c) (rename_expr n) (rename_expr b)
+  | EForInRange v a b body => EForInRange (rho v) (rename_expr a) (rename_expr b) (rename_expr body)
+  | EForInArr v a body => EForInArr (rho v) (rename_expr a) (rename_expr body)
   | ELambda fd => ELambda (rename_fdef fd)
   | EArrLit es t => EArrLit (map rename_expr es) t
   | EIndex a i => EIndex (rename_expr a) (rename_expr i)
@@ -207,6 +209,39 @@ Proof.
   destruct (nth_error l fld); reflexivity.
 Qed.
 
+(* for-in loops *)
+Definition ren_lstep (l : lstep) : lstep :=
+  match l with
+  | LsBind c st s => LsBind c (rename_state st) s
+  | l => l
+  end.
+
+Lemma forin_step_ren : forall st s, forin_step (rename_state st) s = ren_lstep (forin_step st s).
+Proof.
+  intros st s. destruct s as [z zb|z zb|ca i]; cbn [forin_step].
+  - destruct (z <=? zb)%Z; [|reflexivity]. rewrite alloc_ren_int.
+    destruct (alloc st (CInt z)); reflexivity.
+  - destruct (zb <=? z)%Z; [|reflexivity]. rewrite alloc_ren_int.
+    destruct (alloc st (CInt z)); reflexivity.
+  - rewrite get_cell_ren. simpl arrs.
+    destruct (get_cell st ca) as [[| | |[ar|]|]|]; simpl; try reflexivity.
+    destruct (nth_error (arrs st) ar); try reflexivity.
+    destruct (nth_error l i); reflexivity.
+Qed.
+
+Lemma forin_loop_ren : forall (ev ev' : nat -> state -> res * state),
+  (forall c st, ev' c (rename_state st) = ren_res (ev c st)) ->
+  forall n s st, forin_loop ev' n s (rename_state st) = ren_res (forin_loop ev n s st).
+Proof.
+  intros ev ev' Hev. induction n as [|n IH]; intros s st.
+  - reflexivity.
+  - rewrite !forin_loop_S, forin_step_ren.
+    destruct (forin_step st s) as [|r|c st1 s']; cbn [ren_lstep].
+    + apply fresh_ren_int.
+    + reflexivity.
+    + rewrite Hev. destruct (ev c st1) as [[] s2]; cbn [ren_res fst snd]; try reflexivity. apply IH.
+Qed.
+
 Lemma rename_env_app : forall a b, rename_env (a ++ b) = rename_env a ++ rename_env b.
 Proof. intros; apply map_app. Qed.
 
@@ -333,6 +368,7 @@ Proof.
         autorewrite with evaleq; sim_tac IHe IHi IHh.
       all: try (apply (IHe e _ (EWhile _ _))); try (apply (IHe e _ (EDoWhile _ _)));
            try (apply (IHe e _ (EWhile _ (EBlock [IExpr _; IExpr _])))).
+      all: try (apply forin_loop_ren; intros cv sv; apply (IHe ((_, cv) :: e))).
       * (* ECall *)
         rewrite Hargs. destruct (eval_args genv k e args st) as [[[cs|] r] s]; cbn [fst snd]; try reflexivity.
         sim_tac IHe IHi IHh. apply Happ.
